@@ -239,20 +239,25 @@ def jobs(tier, seed):
         ]
         vals = [v]
     else:
-        plan = []
-        for f in ("xy", "indexed", "hist", "unbinned"):
-            for d in ("nonlinear", "iterative"):
-                for m in ("iminuit", "scipy"):
-                    if f == "unbinned" and d == "iterative":
-                        continue
-                    L = 3 if (m == "iminuit" and d == "nonlinear") else 2
-                    sts = []
-                    for si in range(len(STARTS[f])):
-                        sts.append((si, False, L, 16 if f in ("xy", "indexed") else 4))
-                        if not (si == 0 and f in ("xy", "indexed")):
-                            sts.append((si, True, L - 1, 8))
-                    plan.append((f, d, m, sts))
+        # thorough: (a) the quick structure with the full observable and kind alphabets, all valuations;
+        # (b) both algorithms x both backends at L = 2; (c) L = 3 for xy / indexed with iminuit (one valuation)
+        plan = [
+            ("xy", "nonlinear", "iminuit", [(0, False, 2, 4), (1, False, 2, 16), (2, False, 2, 16), (1, True, 2, 8), (2, True, 2, 8)]),
+            ("indexed", "nonlinear", "iminuit", [(0, False, 2, 4), (1, False, 2, 12), (2, False, 2, 12), (1, True, 2, 6), (2, True, 2, 6)]),
+            ("hist", "nonlinear", "iminuit", [(0, False, 2, 4), (1, False, 2, 4), (1, True, 2, 4), (0, True, 1, 1)]),
+            ("unbinned", "nonlinear", "iminuit", [(0, False, 3, 4), (0, True, 2, 2)]),
+            ("xy", "iterative", "iminuit", [(2, False, 2, 16), (2, True, 1, 4)]),
+            ("xy", "nonlinear", "scipy", [(1, False, 2, 16), (2, True, 1, 4)]),
+            ("xy", "iterative", "scipy", [(2, False, 1, 4), (2, True, 1, 4)]),
+            ("indexed", "iterative", "iminuit", [(2, False, 2, 12), (2, True, 1, 3)]),
+            ("indexed", "nonlinear", "scipy", [(1, False, 2, 12)]),
+            ("hist", "nonlinear", "scipy", [(1, False, 1, 2), (1, True, 1, 2)]),
+        ]
         vals = [0, 1, 2]
+        for vv in [v]:
+            for ftype, si, nsh in (("xy", 1, 48), ("indexed", 1, 32)):
+                for sh in range(nsh):
+                    specs.append((ftype, "nonlinear", "iminuit", vv, si, False, 3, "thorough-L3", sh, nsh))
     for ftype, dea, mini, sts in plan:
         for vv in vals:
             for si, fitted_start, L, nshard in sts:
@@ -264,20 +269,20 @@ def jobs(tier, seed):
 def bound(tier, seed):
     if tier == "quick":
         return "base mutator sequences of length <= 2 from 2-3 start states (bare / sources / x+y+model-relative), each also after do_fit; one neutral segment (read of any of ~22 observables, or a cancelling pair) at any position; xy+indexed+hist+unbinned with iminuit/nonlinear and xy with scipy/iterative; valuation %d" % (seed % 3)
-    return "base sequences of length <= 3, one neutral segment at any position; all fit types x both algorithms x both backends; valuations 0,1,2"
+    return "base sequences of length <= 2 with the full observable (21) and source-kind alphabets on all fit types, both algorithms and both backends, valuations 0,1,2; base sequences of length 3 for xy and indexed fits (iminuit, nonlinear, quick alphabets, one valuation); one neutral segment at any position"
 
 
 def run_job(spec):
     ftype, dea, mini, v, si, fitted_start, L, tier, shard, nshard = spec
     cfg = (ftype, dea, mini, v)
     res = JobResult()
-    kinds = KINDS[ftype][tier]
+    kinds = KINDS[ftype]["quick" if tier in ("quick", "thorough-L3") else "thorough"]
     start = STARTS[ftype][si] + ((("fit",),) if fitted_start else ())
     allow_fit = not fitted_start
     bases = enumerate_bases(cfg, start, L, kinds, allow_fit)
     bases = [b for i, b in enumerate(bases) if i % nshard == shard]
     cache = RefCache(cfg)
-    obs_all = (OBS_QUICK if tier == "quick" else OBS)[ftype]
+    obs_all = (OBS_QUICK if tier in ("quick", "thorough-L3") else OBS)[ftype]
     reads = obs_all + READS_EXTRA
     for base in bases:
         full = start + base
